@@ -507,6 +507,7 @@ func (m *Monitor) obsPublish(s *step, opts map[string]any) {
 	}
 	if res.pub != 0 {
 		m.notePub(s, res.pub)
+		m.pubByReq[callKey{op.P, op.Req}] = res.pub
 	}
 	// event history retention (model side, C20)
 	_, hasEx := opts["exclude"]
